@@ -1175,11 +1175,24 @@ def m_fn_call(P, c, args, dt):
 
 @model('std::panic::catch_unwind')
 def m_catch_unwind(P, c, args, dt):
+    f = args[0]
+    if isinstance(f, Agg) and str(getattr(f, 'ty', '')).endswith('AssertUnwindSafe') and len(f.f) == 1:
+        f = f.f[0]          # AssertUnwindSafe(closure): FnOnce forwards to the closure
     try:
-        return ok(P.call_value(args[0], []))
+        return ok(P.call_value(f, []))
     except Panic as e:
         P.events.append(('caught_panic', e.msg))
         return err(BoxV(Opaque('PanicPayload', e.msg)))
+
+
+@model('type::downcast_ref')
+def m_downcast_ref(P, c, args, dt):
+    """a caught panic payload is opaque here: neither the &str nor the String downcast succeeds"""
+    v = tgt(args[0]) if args else None
+    inner = getattr(v, 'v', v)
+    if isinstance(inner, Opaque) and inner.tag == 'PanicPayload' or isinstance(v, Opaque) and v.tag == 'PanicPayload':
+        return none()
+    raise Unsupported('downcast_ref of %r' % (v,))
 
 
 @model('std::panic::AssertUnwindSafe')
